@@ -39,7 +39,12 @@ class RecStream:
             return 1 if (len(p) > 2 and p[2] == 'one') else min(n, avail)
         raise ValueError(p)
 
+    stalls = None       # {index of the read() call: virtual seconds the peer stays silent before it}
+
     def read(self, n=-1):
+        if self.stalls and len(self.reads) in self.stalls:
+            from vmon import vclock
+            vclock.advance(self.stalls[len(self.reads)])
         avail = len(self.data) - self.pos
         if n is None or n < 0:
             n_eff = avail
